@@ -540,6 +540,7 @@ func main() {
 		run.Set("hidden_flags_not_enumerated", hid)
 		run.Set("cases_planned_pairs", idx)
 	}
+	os.RemoveAll(w.dir) // finish exits the process: deferred calls do not run
 	finish()
 }
 
